@@ -69,15 +69,15 @@ Qed.
 Lemma width_select_cols cs t : width_ok (sem_select_cols cs t).
 Proof. unfold width_ok. simpl. apply Forall_forall. intros r H. apply in_map_iff in H. destruct H as [r0 [<- _]]. apply map_length. Qed.
 
-Lemma extend_row_width cs ops r : List.length r = List.length cs ->
-  List.length (extend_row cs ops r) = List.length (ext_cols cs (map fst ops)).
+Lemma extend_row_width fl cs ops r : List.length r = List.length cs ->
+  List.length (extend_row fl cs ops r) = List.length (ext_cols cs (map fst ops)).
 Proof.
   intros L. unfold extend_row.
-  destruct (fold_cells_inv (fun ke => eval_expr cs r (snd ke)) ops r cs L) as [H1 H2].
+  destruct (fold_cells_inv (fun ke => eval_expr fl cs r (snd ke)) ops r cs L) as [H1 H2].
   rewrite <- H2. exact H1.
 Qed.
 
-Lemma width_extend ops t : width_ok t -> width_ok (sem_extend ops t).
+Lemma width_extend fl ops t : width_ok t -> width_ok (sem_extend fl ops t).
 Proof.
   unfold width_ok. simpl. rewrite !Forall_forall. intros W r H. apply in_map_iff in H. destruct H as [r0 [<- I]].
   apply extend_row_width. apply W. exact I.
@@ -87,13 +87,13 @@ Lemma map_fst_tagged {A B C} (g : A * B -> C) (ops : list (A * B)) :
   map fst (map (fun ke => (fst ke, g ke)) ops) = map fst ops.
 Proof. induction ops as [|a l IH]; simpl; [reflexivity|]. rewrite IH. reflexivity. Qed.
 
-Lemma width_wextend ops w t : width_ok t -> width_ok (sem_wextend ops w t).
+Lemma width_wextend fl ops w t : width_ok t -> width_ok (sem_wextend fl ops w t).
 Proof.
   unfold width_ok. simpl. rewrite !Forall_forall. intros W r H. apply in_map_iff in H. destruct H as [ir [<- I]].
   apply tag_from_In in I. apply W in I.
   destruct (fold_cells_inv (fun kc : string * list (nat * val) => lookup_pos (snd kc) (fst ir))
-              (map (fun ke => (fst ke, window_column w t (snd ke))) ops) (snd ir) (cols t) I) as [H1 H2].
-  rewrite (map_fst_tagged (fun ke => window_column w t (snd ke))) in H2. rewrite <- H2. exact H1.
+              (map (fun ke => (fst ke, window_column fl w t (snd ke))) ops) (snd ir) (cols t) I) as [H1 H2].
+  rewrite (map_fst_tagged (fun ke => window_column fl w t (snd ke))) in H2. rewrite <- H2. exact H1.
 Qed.
 
 Lemma key_of_length cs ks r : List.length (key_of cs ks r) = List.length ks.
@@ -108,7 +108,7 @@ Proof.
   right. apply IH. apply filter_In in I. tauto.
 Qed.
 
-Lemma width_project ops gb t : width_ok (sem_project ops gb t).
+Lemma width_project fl ops gb t : width_ok (sem_project fl ops gb t).
 Proof.
   unfold width_ok. simpl. apply Forall_forall. intros r H. apply in_map_iff in H. destruct H as [k [<- I]].
   rewrite !app_length, !map_length. f_equal.
@@ -116,7 +116,7 @@ Proof.
   apply distinct_keys_sound_aux in I. apply in_map_iff in I. destruct I as [r0 [<- _]]. apply key_of_length.
 Qed.
 
-Lemma width_select_rows x t : width_ok t -> width_ok (sem_select_rows x t).
+Lemma width_select_rows fl x t : width_ok t -> width_ok (sem_select_rows fl x t).
 Proof.
   unfold width_ok. simpl. rewrite !Forall_forall. intros W r H. apply W. eapply filter_In_sub. exact H.
 Qed.
@@ -138,13 +138,13 @@ Qed.
 Lemma firstn_In {A} n (l : list A) y : In y (firstn n l) -> In y l.
 Proof. revert l. induction n as [|n IH]; intros [|a t]; simpl; try tauto. intros [<-|H]; auto. Qed.
 
-Lemma width_order cs rev lim t : width_ok t -> width_ok (sem_order cs rev lim t).
+Lemma width_order fl cs rev lim t : width_ok t -> width_ok (sem_order fl cs rev lim t).
 Proof.
   unfold width_ok. simpl. rewrite !Forall_forall. intros W r H. apply W.
   destruct lim; [apply firstn_In in H|]; eapply stable_sort_In; exact H.
 Qed.
 
-Lemma width_join nm on jt a b : width_ok (sem_join nm on jt a b).
+Lemma width_join nm on_a on_b jt a b : width_ok (sem_join nm on_a on_b jt a b).
 Proof.
   unfold width_ok, sem_join. cbn [cols rows]. apply Forall_forall. intros r H.
   set (out := cols a ++ filter (fun c => negb (mem c (cols a))) (cols b)) in *.
@@ -168,38 +168,40 @@ Proof.
 Qed.
 
 (* ---------- C08: the result has exactly the declared columns, in the declared order; rows have that width *)
-Lemma sem_cols nm p e t : sem_gen nm p e = Some t -> cols t = column_names p.
+Lemma sem_cols fl p e t : sem_gen fl p e = Some t -> cols t = column_names p.
 Proof.
   revert t. induction p; intros t H; cbn [sem_gen] in H; cbn [column_names].
   - destruct (dict_get e name); inversion H; reflexivity.
-  - destruct (sem_gen nm p e) as [t0|]; simpl in H; inversion H. rewrite <- (IHp _ eq_refl). destruct windowed; reflexivity.
-  - destruct (sem_gen nm p e) as [t0|]; simpl in H; inversion H. reflexivity.
-  - destruct (sem_gen nm p e) as [t0|]; simpl in H; inversion H. rewrite <- (IHp _ eq_refl). reflexivity.
-  - destruct (sem_gen nm p e) as [t0|]; simpl in H; inversion H. reflexivity.
-  - destruct (sem_gen nm p e) as [t0|]; simpl in H; inversion H. rewrite <- (IHp _ eq_refl). reflexivity.
-  - destruct (sem_gen nm p e) as [t0|]; simpl in H; inversion H. rewrite <- (IHp _ eq_refl). reflexivity.
-  - destruct (sem_gen nm p e) as [t0|]; simpl in H; inversion H. rewrite <- (IHp _ eq_refl). reflexivity.
-  - destruct (sem_gen nm p1 e) as [ta|]; [|discriminate]. destruct (sem_gen nm p2 e) as [tb|]; inversion H.
+  - destruct (sem_gen fl p e) as [t0|]; simpl in H; inversion H. rewrite <- (IHp _ eq_refl). destruct windowed; reflexivity.
+  - destruct (sem_gen fl p e) as [t0|]; simpl in H; inversion H. reflexivity.
+  - destruct (sem_gen fl p e) as [t0|]; simpl in H; inversion H. rewrite <- (IHp _ eq_refl). reflexivity.
+  - destruct (sem_gen fl p e) as [t0|]; simpl in H; inversion H. reflexivity.
+  - destruct (sem_gen fl p e) as [t0|]; simpl in H; inversion H. rewrite <- (IHp _ eq_refl). reflexivity.
+  - destruct (sem_gen fl p e) as [t0|]; simpl in H; inversion H. rewrite <- (IHp _ eq_refl). reflexivity.
+  - destruct (sem_gen fl p e) as [t0|]; simpl in H; inversion H. rewrite <- (IHp _ eq_refl). reflexivity.
+  - destruct (sem_gen fl p e) as [t0|]; simpl in H; inversion H. rewrite <- (IHp _ eq_refl). reflexivity.
+  - destruct (sem_gen fl p1 e) as [ta|]; [|discriminate]. destruct (sem_gen fl p2 e) as [tb|]; inversion H.
     rewrite <- (IHp1 _ eq_refl), <- (IHp2 _ eq_refl). reflexivity.
-  - destruct (sem_gen nm p1 e) as [ta|]; [|discriminate]. destruct (sem_gen nm p2 e) as [tb|]; inversion H.
+  - destruct (sem_gen fl p1 e) as [ta|]; [|discriminate]. destruct (sem_gen fl p2 e) as [tb|]; inversion H.
     rewrite <- (IHp1 _ eq_refl). destruct idcol; simpl; [reflexivity|]. rewrite app_nil_r. reflexivity.
 Qed.
 
-Lemma sem_rows_width nm p e t : sem_gen nm p e = Some t -> Forall (fun r => List.length r = List.length (cols t)) (rows t).
+Lemma sem_rows_width fl p e t : sem_gen fl p e = Some t -> Forall (fun r => List.length r = List.length (cols t)) (rows t).
 Proof.
-  change (sem_gen nm p e = Some t -> width_ok t).
+  change (sem_gen fl p e = Some t -> width_ok t).
   revert t. induction p; intros t H; cbn [sem_gen] in H.
   - destruct (dict_get e name); inversion H. apply width_select_cols.
-  - destruct (sem_gen nm p e) as [t0|]; simpl in H; inversion H.
+  - destruct (sem_gen fl p e) as [t0|]; simpl in H; inversion H.
     destruct windowed; [apply width_wextend|apply width_extend]; apply IHp; reflexivity.
-  - destruct (sem_gen nm p e) as [t0|]; simpl in H; inversion H. apply width_project.
-  - destruct (sem_gen nm p e) as [t0|]; simpl in H; inversion H. apply width_select_rows. apply IHp; reflexivity.
-  - destruct (sem_gen nm p e) as [t0|]; simpl in H; inversion H. apply width_select_cols.
-  - destruct (sem_gen nm p e) as [t0|]; simpl in H; inversion H. apply width_select_cols.
-  - destruct (sem_gen nm p e) as [t0|]; simpl in H; inversion H. apply width_rename. apply IHp; reflexivity.
-  - destruct (sem_gen nm p e) as [t0|]; simpl in H; inversion H. apply width_order. apply IHp; reflexivity.
-  - destruct (sem_gen nm p1 e) as [ta|]; [|discriminate]. destruct (sem_gen nm p2 e) as [tb|]; inversion H. apply width_join.
-  - destruct (sem_gen nm p1 e) as [ta|]; [|discriminate]. destruct (sem_gen nm p2 e) as [tb|]; inversion H.
+  - destruct (sem_gen fl p e) as [t0|]; simpl in H; inversion H. apply width_project.
+  - destruct (sem_gen fl p e) as [t0|]; simpl in H; inversion H. apply width_select_rows. apply IHp; reflexivity.
+  - destruct (sem_gen fl p e) as [t0|]; simpl in H; inversion H. apply width_select_cols.
+  - destruct (sem_gen fl p e) as [t0|]; simpl in H; inversion H. apply width_select_cols.
+  - destruct (sem_gen fl p e) as [t0|]; simpl in H; inversion H. apply width_rename. apply IHp; reflexivity.
+  - destruct (sem_gen fl p e) as [t0|]; simpl in H; inversion H. apply width_select_cols.
+  - destruct (sem_gen fl p e) as [t0|]; simpl in H; inversion H. apply width_order. apply IHp; reflexivity.
+  - destruct (sem_gen fl p1 e) as [ta|]; [|discriminate]. destruct (sem_gen fl p2 e) as [tb|]; inversion H. apply width_join.
+  - destruct (sem_gen fl p1 e) as [ta|]; [|discriminate]. destruct (sem_gen fl p2 e) as [tb|]; inversion H.
     apply width_concat. apply IHp1; reflexivity.
 Qed.
 
@@ -207,13 +209,14 @@ Qed.
 Fixpoint tables_of (p : op) : list string :=
   match p with
   | OTable n _ => [n]
-  | OExtend s _ _ _ | OProject s _ _ | OSelectRows s _ | OSelectCols s _ | ODropCols s _ | ORename s _ | OOrder s _ _ _ => tables_of s
-  | OJoin a b _ _ | OConcat a b _ _ _ => tables_of a ++ tables_of b
+  | OExtend s _ _ _ | OProject s _ _ | OSelectRows s _ | OSelectCols s _ | ODropCols s _ | ORename s _ | OMapCols s _ _ | OOrder s _ _ _ => tables_of s
+  | OJoin a b _ _ _ | OConcat a b _ _ _ => tables_of a ++ tables_of b
   end.
-Lemma sem_defined nm p e : (forall n, In n (tables_of p) -> dict_get e n <> None) -> exists t, sem_gen nm p e = Some t.
+Lemma sem_defined fl p e : (forall n, In n (tables_of p) -> dict_get e n <> None) -> exists t, sem_gen fl p e = Some t.
 Proof.
   induction p; intros H; cbn [sem_gen]; cbn [tables_of] in H.
   - destruct (dict_get e name) eqn:E; [eexists; reflexivity|]. exfalso. apply (H name); [left; reflexivity|exact E].
+  - destruct (IHp H) as [t0 E]. rewrite E. eexists; reflexivity.
   - destruct (IHp H) as [t0 E]. rewrite E. eexists; reflexivity.
   - destruct (IHp H) as [t0 E]. rewrite E. eexists; reflexivity.
   - destruct (IHp H) as [t0 E]. rewrite E. eexists; reflexivity.
@@ -295,28 +298,28 @@ Qed.
 
 (* ---------- C09: project *)
 (* without group_by: exactly one row, also on an empty input *)
-Lemma project_ungrouped_one_row ops t : List.length (rows (sem_project ops [] t)) = 1%nat.
+Lemma project_ungrouped_one_row fl ops t : List.length (rows (sem_project fl ops [] t)) = 1%nat.
 Proof. reflexivity. Qed.
 (* with group_by: one row per distinct key combination of the input *)
-Lemma project_grouped_row_count ops gb t : gb <> [] ->
-  List.length (rows (sem_project ops gb t)) = List.length (distinct_keys (map (key_of (cols t) gb) (rows t))).
+Lemma project_grouped_row_count fl ops gb t : gb <> [] ->
+  List.length (rows (sem_project fl ops gb t)) = List.length (distinct_keys (map (key_of (cols t) gb) (rows t))).
 Proof. intros N. destruct gb as [|g gb]; [congruence|]. unfold sem_project. cbn [rows]. apply map_length. Qed.
 (* every output row starts with its group key and aggregates exactly the input rows with an equivalent key *)
-Lemma project_row_content ops gb t r : In r (rows (sem_project ops gb t)) ->
-  exists k, r = k ++ map (fun ke => agg_value (cols t) (filter (fun r0 => keys_eqv k (key_of (cols t) gb r0)) (rows t)) (snd ke)) ops
+Lemma project_row_content fl ops gb t r : In r (rows (sem_project fl ops gb t)) ->
+  exists k, r = k ++ map (fun ke => agg_value fl (cols t) (filter (fun r0 => keys_eqv k (key_of (cols t) gb r0)) (rows t)) (snd ke)) ops
             /\ (gb <> [] -> In k (map (key_of (cols t) gb) (rows t))).
 Proof.
   unfold sem_project. cbn [rows]. intros H. apply in_map_iff in H. destruct H as [k [<- I]].
   exists k. split; [reflexivity|]. intros N. destruct gb as [|g gb]; [congruence|]. apply distinct_keys_sound. exact I.
 Qed.
 (* a row whose key contains a null still belongs to a group of the output *)
-Lemma project_null_key_has_group ops gb t r0 : gb <> [] -> In r0 (rows t) ->
-  exists r k, In r (rows (sem_project ops gb t)) /\ firstn (List.length gb) r = k /\ keys_eqv k (key_of (cols t) gb r0) = true.
+Lemma project_null_key_has_group fl ops gb t r0 : gb <> [] -> In r0 (rows t) ->
+  exists r k, In r (rows (sem_project fl ops gb t)) /\ firstn (List.length gb) r = k /\ keys_eqv k (key_of (cols t) gb r0) = true.
 Proof.
   intros N I.
   destruct (distinct_keys_complete (map (key_of (cols t) gb) (rows t)) (key_of (cols t) gb r0)) as [k [Ik E]].
   { apply in_map. exact I. }
-  exists (k ++ map (fun ke => agg_value (cols t) (filter (fun r => keys_eqv k (key_of (cols t) gb r)) (rows t)) (snd ke)) ops), k.
+  exists (k ++ map (fun ke => agg_value fl (cols t) (filter (fun r => keys_eqv k (key_of (cols t) gb r)) (rows t)) (snd ke)) ops), k.
   split; [|split; [|exact E]].
   - unfold sem_project. cbn [rows]. destruct gb as [|g gb]; [congruence|].
     apply in_map_iff. exists k. split; [reflexivity|exact Ik].
@@ -326,14 +329,14 @@ Proof.
 Qed.
 
 (* ---------- C09: windowed extend keeps every input row *)
-Lemma wextend_row_count ops w t : List.length (rows (sem_wextend ops w t)) = List.length (rows t).
+Lemma wextend_row_count fl ops w t : List.length (rows (sem_wextend fl ops w t)) = List.length (rows t).
 Proof. unfold sem_wextend. cbn [rows]. rewrite map_length. apply tag_from_length. Qed.
-Lemma extend_row_count ops t : List.length (rows (sem_extend ops t)) = List.length (rows t).
+Lemma extend_row_count fl ops t : List.length (rows (sem_extend fl ops t)) = List.length (rows t).
 Proof. unfold sem_extend. cbn [rows]. apply map_length. Qed.
 (* ... and leaves the columns it does not assign untouched *)
-Lemma wextend_keeps_other_columns ops w t i r r' c :
+Lemma wextend_keeps_other_columns fl ops w t i r r' c :
   NoDup (cols t) -> Forall (fun r => List.length r = List.length (cols t)) (rows t) ->
-  nth_error (rows t) i = Some r -> nth_error (rows (sem_wextend ops w t)) i = Some r' ->
+  nth_error (rows t) i = Some r -> nth_error (rows (sem_wextend fl ops w t)) i = Some r' ->
   In c (cols t) -> ~ In c (map fst ops) ->
   get (ext_cols (cols t) (map fst ops)) r' c = get (cols t) r c.
 Proof.
@@ -341,7 +344,7 @@ Proof.
   rewrite nth_error_map, (tag_from_nth_error 0 _ _ _ Hr) in Hr'. simpl in Hr'. inversion Hr' as [E]. clear Hr'.
   rewrite Forall_forall in W. assert (List.length r = List.length (cols t)) as L by (apply W; eapply nth_error_In; eassumption).
   pose proof (fold_cells_get (fun kc : string * list (nat * val) => lookup_pos (snd kc) i)
-              (map (fun ke => (fst ke, window_column w t (snd ke))) ops) r (cols t) c L Ic) as G.
-  rewrite (map_fst_tagged (fun ke => window_column w t (snd ke))) in G. apply G. exact Nc.
+              (map (fun ke => (fst ke, window_column fl w t (snd ke))) ops) r (cols t) c L Ic) as G.
+  rewrite (map_fst_tagged (fun ke => window_column fl w t (snd ke))) in G. apply G. exact Nc.
 Qed.
 
